@@ -147,6 +147,7 @@ def stateJ (s : StmtState) (rejected : Bool) : Json :=
     ("unscoped", Json.bool s.unscoped),
     ("keys", Json.arr (s.keys.toArray.qsort (· < ·) |>.map Json.str)),
     ("rejected", Json.bool rejected),
+    ("sound", Json.bool (whereSound (s.w.exprs.getD []))),
     ("where", Json.str (textFlat (whereBuild (s.w.exprs.getD []))))]
 
 end HC02
